@@ -13,6 +13,8 @@ import (
 	"os"
 	"runtime/debug"
 	"sort"
+	"strconv"
+	"strings"
 	"time"
 
 	"verifharness/hist"
@@ -65,7 +67,47 @@ func (e *evalResult) failed() bool {
 	return e.corresp != "" || e.oracle != "" || e.merr != "" || e.herr != ""
 }
 
+// Hang guard.  A changed implementation can block for ever (a leaked semaphore slot, a lock
+// taken twice, an endless loop).  Every case runs under a wall-clock limit (VERIF_CASE_TIMEOUT_S,
+// default 300 s; the slowest case of the unchanged tree takes a few seconds); a case that does
+// not return is reported as a failure of the implementation WITH its history, the blocked
+// goroutine is left behind, later cases get 10 s, and after three hangs nothing more is executed.
+var hangs int
+
+func caseTimeout() time.Duration {
+	if hangs > 0 {
+		return 10 * time.Second
+	}
+	if v, err := strconv.Atoi(os.Getenv("VERIF_CASE_TIMEOUT_S")); err == nil && v > 0 {
+		return time.Duration(v) * time.Second
+	}
+	return 300 * time.Second
+}
+
 func execImpl(c *props.Case) (got []hist.Obs, herr string) {
+	if hangs >= 3 {
+		return nil, "not executed: three earlier cases of this run did not return (see the first failures)"
+	}
+	type res struct {
+		got  []hist.Obs
+		herr string
+	}
+	ch := make(chan res, 1)
+	limit := caseTimeout()
+	go func() {
+		g, h := execImplNow(c)
+		ch <- res{g, h}
+	}()
+	select {
+	case r := <-ch:
+		return r.got, r.herr
+	case <-time.After(limit):
+		hangs++
+		return []hist.Obs{{Kind: "bad", Msg: fmt.Sprintf("HANG: the implementation did not return within %s while executing this history", limit)}}, ""
+	}
+}
+
+func execImplNow(c *props.Case) (got []hist.Obs, herr string) {
 	defer func() {
 		if r := recover(); r != nil {
 			herr = fmt.Sprintf("harness panic while executing the history: %v\n%s", r, debug.Stack())
@@ -97,6 +139,12 @@ func noformatAt(h hist.History, upto int, f int) bool {
 func finish(p props.Property, c *props.Case, e *evalResult) {
 	if e.herr != "" {
 		return
+	}
+	for _, o := range e.got {
+		if o.Kind == "bad" && strings.HasPrefix(o.Msg, "HANG:") {
+			e.oracle = o.Msg // no property allows a render that never returns
+			return
+		}
 	}
 	mobs, err := hist.ParseObs(e.model)
 	if err != nil {
@@ -153,6 +201,7 @@ func evalOne(p props.Property, pool *modelproc.Pool, c *props.Case) *evalResult 
 }
 
 func main() {
+	hist.InitDone()
 	prop := flag.String("prop", "", "property id")
 	tier := flag.String("tier", "quick", "quick | thorough")
 	seed := flag.Int64("seed", 1, "PRNG seed")
